@@ -38,25 +38,35 @@ func TestVerifC21ServeFail(t *testing.T) {
 		t.Fatalf("bootstrap: %v", err)
 	}
 	defer s.Close(true)
-	if _, err := s.WaitForLeader(10 * time.Second); err != nil {
+	if _, err := s.WaitForLeader(60 * time.Second); err != nil {
 		t.Fatalf("leader: %v", err)
 	}
-	res, _, err := s.Execute(context.Background(), executeRequestFromStrings([]string{
+	if err := c21Execute(s, []string{
 		"CREATE TABLE a (seq INTEGER PRIMARY KEY, v INTEGER)",
 		"CREATE TABLE acct (id INTEGER PRIMARY KEY, bal INTEGER)",
 		"CREATE TABLE b (seq INTEGER PRIMARY KEY, v INTEGER)",
-		"INSERT INTO acct(id, bal) VALUES(1, 500)", "INSERT INTO acct(id, bal) VALUES(2, 500)"}, false, false))
-	if err != nil || res[0].GetError() != "" {
-		t.Fatalf("schema: %v %v", err, res)
+		"INSERT INTO acct(id, bal) VALUES(1, 500)", "INSERT INTO acct(id, bal) VALUES(2, 500)",
+		"CREATE TABLE schemaver (g INTEGER)", "INSERT INTO schemaver(g) VALUES(0)"}, true); err != nil {
+		t.Fatalf("schema: %v", err)
+	}
+	if err := c21Execute(s, c21GenCreate(0), true); err != nil {
+		t.Fatalf("schema generation 0: %v", err)
 	}
 	for k := int64(1); k <= 40; k++ {
 		v := c21V(k)
-		if _, _, err := s.Execute(context.Background(), executeRequestFromStrings([]string{
+		if err := c21Execute(s, []string{
 			fmt.Sprintf("INSERT INTO a(seq, v) VALUES(%d, %d)", k, v),
 			fmt.Sprintf("UPDATE acct SET bal = bal - %d WHERE id = 1", v),
 			fmt.Sprintf("UPDATE acct SET bal = bal + %d WHERE id = 2", v),
-			fmt.Sprintf("INSERT INTO b(seq, v) VALUES(%d, %d)", k, v)}, false, true)); err != nil {
+			fmt.Sprintf("INSERT INTO b(seq, v) VALUES(%d, %d)", k, v)}, true); err != nil {
 			t.Fatalf("write: %v", err)
+		}
+		if k%c21GenEvery == 0 {
+			g := k / c21GenEvery
+			stmts := append(append(c21GenCreate(g), c21GenDrop(g-1)...), fmt.Sprintf("UPDATE schemaver SET g = %d", g))
+			if err := c21Execute(s, stmts, true); err != nil {
+				t.Fatalf("schema transaction: %v", err)
+			}
 		}
 	}
 
@@ -83,9 +93,9 @@ func TestVerifC21ServeFail(t *testing.T) {
 			// what the serving node's own Backup says, streamed into a buffer
 			var local bytes.Buffer
 			lerr := s.Backup(context.Background(), &proto.BackupRequest{Format: cfg.format, Compress: true}, &local)
-			cl := cluster.NewClient(c21TCPDialer{}, 5*time.Second)
+			cl := cluster.NewClient(c21TCPDialer{}, 60*time.Second)
 			var out bytes.Buffer
-			rerr := cl.Backup(context.Background(), &proto.BackupRequest{Format: cfg.format, Compress: compress}, svc.Addr(), nil, 5*time.Second, &out)
+			rerr := cl.Backup(context.Background(), &proto.BackupRequest{Format: cfg.format, Compress: compress}, svc.Addr(), nil, 60*time.Second, &out)
 			s.dbPath = realPath
 			name := fmt.Sprintf("compress=%v,source-fails=%v", compress, fail)
 			rep.Case(name, fail)
